@@ -100,6 +100,11 @@ def execStep (st : ExecDrvSt) (op : String) (a : KV) : ExecDrvSt × String :=
       (exCount (exCount st o1.ran) o2.ran,
        s!"run1={exFmtRun o1.res} marker1={exB01 o1.ran} run2={exFmtRun o2.res} marker2={exB01 o2.ran}")
     | _ => (st, "bad-trace")
+  | "ex.busy" =>
+    -- the file passes the check, the start fails (text file busy): an error, nothing executed; what happens to the
+    -- file afterwards does not matter because the call is over
+    let o := safeCmdExecution .resolved (.ok { uid := 0, gid := 0, mode := 0o755 }) .startError 2000
+    (exCount st o.ran, s!"run={exFmtRun o.res} marker={exB01 o.ran}")
   | "ex.dangling" =>
     let chk := checkPerm .err .notExist
     let o := safeCmdExecution .err .notExist (.exits 0 "7\n") 2000
@@ -154,6 +159,30 @@ def execStep (st : ExecDrvSt) (op : String) (a : KV) : ExecDrvSt × String :=
       | .ok (.error _) => (st, "res=err")
       | .err _ => (st, "res=err")
       | .panic s => (st, "res=panic:" ++ panicClass s)
+  | "ex.userpair" =>
+    -- two calls on one cmd fan from two goroutines: each is a call of its own (CmdFan holds no lock across a command)
+    let o := safeCmdExecution .resolved (.ok { uid := 0, gid := 0, mode := 0o755 })
+      (exBehOf (a.str "beh" "sleep") none) 2000
+    let parse : String → Option String := fun s => if s == "42" then some "x4045000000000000" else none
+    let one : String → String := fun kind =>
+      if kind == "rpmavg" then "ok"
+      else if kind == "fanset" then
+        match cmdUserSet o with
+        | .ok (.ok ()) => "ok"
+        | .ok (.error _) => "err"
+        | .err _ => "err"
+        | .panic s => "panic:" ++ panicClass s
+      else
+        match cmdUserValue parse o with
+        | .ok (.ok _) => "ok"
+        | .ok (.error _) => "err"
+        | .err _ => "err"
+        | .panic s => "panic:" ++ panicClass s
+    let within : Bool := match o.boundedBy with
+      | some b => decide (b ≤ 2000 + exMarginMs)
+      | none => false
+    let w2 := if a.str "second" "fanrpm" == "rpmavg" then true else within
+    (st, s!"a={one (a.str "first" "fanpwm")} awithin={exB01 within} b={one (a.str "second" "fanrpm")} bwithin={exB01 w2}")
   | "ex.reset" => ({}, "ok")
   | "ex.count" => (st, s!"executed={st.executed} not={st.notExecuted}")
   | _ => (st, "bad-op")
